@@ -401,6 +401,34 @@ func (c20) Run(t *testing.T, tape *core.Tape, rcx *RunCtx) *core.Result {
 		sc.Fault = "truncation (file; drawn as read-error)"
 		sc.PayloadLen = len(damaged)
 	}
+	// A second, intact stream parsed at the same time by another caller ("background
+	// traffic"): two streams in one process must not interfere (shared pools, caches).
+	dual := !sweep && tape.Chance(12)
+	var entriesB []c20Entry
+	var payloadB []byte
+	var pathB string
+	if dual {
+		kB := 1 + tape.Draw(3)
+		if tape.Chance(30) {
+			kB = 90 + tape.Draw(40) // around the 100-slot channels of uniprot.Read
+		}
+		entriesB = c20GenEntries(tape, kB, false)
+		plainB, _ := c20Doc(tape, entriesB, tape.Chance(50))
+		payloadB = plainB
+		if sc.Gzip {
+			payloadB = gz(plainB)
+		}
+		if useRead {
+			pathB = filepath.Join(rcx.TmpDir, fmt.Sprintf("c20-%d-b.xml.gz", rcx.Index))
+			os.WriteFile(pathB, payloadB, 0o644)
+			defer os.Remove(pathB)
+		}
+		res.Count("probe_two_streams_parsed_concurrently", 1)
+	}
+	var gotEB []uniprot.Entry
+	var gotXB []error
+	closedEB, closedXB, startedB := false, false, true
+	var rdB *core.SimReader
 	// ---- reference pass over exactly the bytes (and error) the parser will see ----
 	var seen []byte // plaintext the parser can see
 	var tailErr error
@@ -491,8 +519,8 @@ func (c20) Run(t *testing.T, tape *core.Tape, rcx *RunCtx) *core.Result {
 	leak, pv := core.Bubble(t, func() {
 		sim = core.NewSim(tape)
 		sim.Record = rcx.Record
-		readReturned := make(chan struct{})                       // closed when uniprot.Read has handed the channels back
-		sim.MaxSteps = 400*len(plain) + 400*len(damaged) + 100000 // backstop only; liveness is judged by progress below
+		readReturned := make(chan struct{})                                           // closed when uniprot.Read has handed the channels back
+		sim.MaxSteps = 400*len(plain) + 400*len(damaged) + 400*len(payloadB) + 100000 // backstop only; liveness is judged by progress below
 		// liveness after the last byte: once the reader has returned EOF or its
 		// error, the parser owes at most the remaining entries and its errors;
 		// both channels must be closed within a bound linear in the number of
@@ -505,7 +533,16 @@ func (c20) Run(t *testing.T, tape *core.Tape, rcx *RunCtx) *core.Result {
 			if rd != nil {
 				consumed, reads = rd.Consumed(), rd.Reads
 			}
-			if allowed := 20000 + 60*consumed + 50*int(reads) + 200*(len(gotE)+len(gotX)); sim.Steps > allowed {
+			if dual {
+				// the intact background stream earns its allowance too
+				if rdB != nil && !useRead {
+					consumed += rdB.Consumed()
+					reads += rdB.Reads
+				} else {
+					consumed += len(payloadB)
+				}
+			}
+			if allowed := 20000 + 60*consumed + 50*int(reads) + 200*(len(gotE)+len(gotX)+len(gotEB)+len(gotXB)); sim.Steps > allowed {
 				return fmt.Sprintf("%d scheduler steps used, %d allowed for %d bytes handed over in %d reads and %d values delivered", sim.Steps, allowed, consumed, reads, len(gotE)+len(gotX))
 			}
 			if rd != nil && rd.Finished && recvAfterEnd > recvBound {
@@ -623,6 +660,63 @@ func (c20) Run(t *testing.T, tape *core.Tape, rcx *RunCtx) *core.Result {
 				}
 			})
 		}
+		if dual {
+			var ceB chan uniprot.Entry
+			var cxB chan error
+			readReturnedB := make(chan struct{})
+			if !useRead {
+				ceB = make(chan uniprot.Entry, sc.CapEntries)
+				cxB = make(chan error, sc.CapErrors)
+			}
+			rdB = core.NewSimReader(sim, tape, payloadB, nil, len(payloadB) > 20000)
+			sim.Go(func() {
+				if useRead {
+					var err error
+					ceB, cxB, err = uniprot.Read(pathB)
+					if err != nil {
+						startedB = false
+					}
+					close(readReturnedB)
+					return
+				}
+				var r io.Reader = rdB
+				if sc.Gzip {
+					zr, err := gzip.NewReader(rdB)
+					if err != nil {
+						startedB = false
+						close(readReturnedB)
+						return
+					}
+					r = zr
+				}
+				close(readReturnedB)
+				uniprot.Parse(r, ceB, cxB)
+			})
+			sim.GoConsumer(func() {
+				<-readReturnedB
+				if !startedB {
+					return
+				}
+				for {
+					sim.Yield("consumer-b:before-entry-receive")
+					e, ok := <-ceB
+					if !ok {
+						closedEB = true
+						break
+					}
+					gotEB = append(gotEB, e)
+				}
+				for {
+					sim.Yield("consumer-b:before-error-receive")
+					e, ok := <-cxB
+					if !ok {
+						closedXB = true
+						return
+					}
+					gotXB = append(gotXB, e)
+				}
+			})
+		}
 		sim.Run()
 	})
 	res.Steps = sim.Steps
@@ -686,6 +780,29 @@ func (c20) Run(t *testing.T, tape *core.Tape, rcx *RunCtx) *core.Result {
 		res.Count("probe_gzip_header_rejected_before_parse", 1)
 		return res
 	}
+	defer func() {
+		// the intact background stream must come through untouched
+		if !dual || res.Class != "" {
+			return
+		}
+		switch {
+		case !startedB:
+			res.Class, res.Detail = "machinery:c20-background-stream", "the intact background stream could not be opened"
+		case !closedEB || !closedXB:
+			res.Class, res.Detail = violation("concurrent-stream-interference"), fmt.Sprintf("an intact stream of %d entries parsed at the same time: entries closed=%v, errors closed=%v after %d entries", len(entriesB), closedEB, closedXB, len(gotEB))
+		case len(gotXB) > 0:
+			res.Class, res.Detail = violation("concurrent-stream-interference"), fmt.Sprintf("an intact stream of %d entries parsed at the same time reported an error: %v (%d entries delivered)", len(entriesB), gotXB[0], len(gotEB))
+		case len(gotEB) != len(entriesB):
+			res.Class, res.Detail = violation("concurrent-stream-interference"), fmt.Sprintf("an intact stream of %d entries parsed at the same time delivered %d", len(entriesB), len(gotEB))
+		default:
+			for i := range entriesB {
+				if d := c20Same(gotEB[i], entriesB[i]); d != "" {
+					res.Class, res.Detail = violation("concurrent-stream-interference"), fmt.Sprintf("intact stream parsed at the same time, entry %d: %s", i, d)
+					return
+				}
+			}
+		}
+	}()
 	switch {
 	case len(sim.Panics) > 0:
 		res.Class, res.Detail = violation("panic"), fmt.Sprintf("%s in task %s at %s", sim.Panics[0].Value, sim.Panics[0].Task, sim.Panics[0].Site)
